@@ -10,6 +10,8 @@ pub struct Rec {
     pub contig: String,
     pub pos: u64,
     pub bad: bool,
+    /// the record has no GT key at all: FORMAT is DP, every sample column holds a depth
+    pub nogt: bool,
     pub gt: std::collections::BTreeMap<String, String>,
 }
 
@@ -21,6 +23,7 @@ pub fn recs_from_json(v: &Value) -> Vec<Rec> {
                     contig: r["contig"].as_str().unwrap().to_string(),
                     pos: r["pos"].as_u64().unwrap(),
                     bad: r["bad"].as_bool().unwrap_or(false),
+                    nogt: r["nogt"].as_bool().unwrap_or(false),
                     gt: r["gt"]
                         .as_object()
                         .unwrap()
@@ -69,11 +72,15 @@ pub fn vcf_record(cols: &[String], r: &Rec, index: usize, extra: bool) -> String
         pos,
         alt.join(","),
         if extra { "DP=14" } else { "." },
-        if extra { "GT:DP" } else { "GT" }
+        if r.nogt { "DP" } else if extra { "GT:DP" } else { "GT" }
     );
     for (ci, c) in cols.iter().enumerate() {
         s.push('\t');
         let g = r.gt.get(c).map(|x| x.as_str()).unwrap_or("./.");
+        if r.nogt {
+            s.push_str(&format!("{}", 5 + ci));
+            continue;
+        }
         if r.bad && index % 2 == 1 && ci == 0 {
             s.push_str("0/x");
         } else {
@@ -169,6 +176,10 @@ pub fn own_bcf(cols: &[String], recs: &[Rec]) -> Vec<u8> {
         text.push_str("##contig=<ID=chr1,length=100000>\n##contig=<ID=chr2,length=100000>\n");
     }
     text.push_str("##FORMAT=<ID=GT,Number=1,Type=String,Description=\"Genotype\">\n");
+    let any_nogt = recs.iter().any(|r| r.nogt);
+    if any_nogt {
+        text.push_str("##FORMAT=<ID=DP,Number=1,Type=Integer,Description=\"Depth\">\n");
+    }
     text.push_str("#CHROM\tPOS\tID\tREF\tALT\tQUAL\tFILTER\tINFO\tFORMAT");
     for c in cols {
         text.push('\t');
@@ -184,7 +195,7 @@ pub fn own_bcf(cols: &[String], recs: &[Rec]) -> Vec<u8> {
             .iter()
             .map(|c| parse_gt(r.gt.get(c).map(|s| s.as_str()).unwrap_or("./.")))
             .collect();
-        let max_allele = calls.iter().flatten().filter_map(|(a, _)| *a).max().unwrap_or(1).max(1);
+        let max_allele = if r.nogt { 1 } else { calls.iter().flatten().filter_map(|(a, _)| *a).max().unwrap_or(1).max(1) };
         let ploidy = calls.iter().map(|c| c.len()).max().unwrap_or(2).max(1);
         let alts = ["C", "G", "T", "AA", "AC", "AG"];
         let mut shared = Vec::new();
@@ -212,6 +223,13 @@ pub fn own_bcf(cols: &[String], recs: &[Rec]) -> Vec<u8> {
             }
             for _ in call.len()..ploidy {
                 indiv.push(0x81); // int8 END_OF_VECTOR
+            }
+        }
+        if r.nogt {
+            // FORMAT key: dictionary index 2 = DP (PASS = 0, GT = 1), one int8 per sample
+            indiv = vec![0x11, 0x02, 0x11];
+            for ci in 0..cols.len() {
+                indiv.push(5 + ci as u8);
             }
         }
         if r.bad {
